@@ -316,7 +316,9 @@ func kernelCases(c *Ctx) {
 	// specification's token reader on the RFC decoder
 	for i := 0; i < n/2; i++ {
 		r := rng.Fork()
-		data := r.Bytes(r.Pick(24, 40, 64, 200))
+		// short data: the block is read within the last bytes of the partition (single-byte loads,
+		// zeros shifted in, end-of-input flag)
+		data := r.Bytes(r.Pick(24, 40, 64, 200, 2, 3, 5, 8, 11, 16))
 		if r.Intn(4) == 0 {
 			for k := range data {
 				data[k] = byte(r.Pick(0, 255, 128, r.Intn(256)))
@@ -347,10 +349,6 @@ func kernelCases(c *Ctx) {
 		first, cx := r.Intn(2), r.Intn(3)
 		dq0, dq1 := r.Pick(4, 8, 50, 157, 314), r.Pick(4, 8, 60, 284, 440)
 		nz, out, val, rg, bits, eof := webp.VerifLossyGetCoeffs(data, warm, probs, cx, dq0, dq1, first)
-		if eof {
-			c.Count("kernel:getcoeffs-ran-out-of-data")
-			continue
-		}
 		cs := make([]string, 16)
 		for k := range cs {
 			cs[k] = fmt.Sprint(out[k])
@@ -363,6 +361,16 @@ func kernelCases(c *Ctx) {
 		res := fmt.Sprintf("%d %s", nz, strings.Join(cs, ","))
 		c.D.Evaluations++
 		c.Count(fmt.Sprintf("kernel:getcoeffs-mode%d", mode))
+		if len(data) < 24 {
+			c.Count("kernel:getcoeffs-near-end-of-data")
+		}
+		if eof {
+			// the model reader raises the flag at the same read; the specification side is not
+			// asked (decodeMB rejects the frame)
+			c.Count("kernel:getcoeffs-ran-out-of-data")
+			addCase("coef "+args, fmt.Sprintf("%s v%d r%d b%d eof", res, val, rg, bits))
+			continue
+		}
 		addCase("coef "+args, fmt.Sprintf("%s v%d r%d b%d", res, val, rg, bits))
 		addCase("coefs "+args, res)
 	}
